@@ -671,3 +671,24 @@ package io
 //@ rule encapsulated Decoder.tail funcs=NewDecoder,NewDecoderFromReader,(*Decoder).loadMore,(*Decoder).NextByte,(*Decoder).Skip,(*Decoder).next,(*Decoder).Remains,(*Decoder).until,(*Decoder).readUint64,(*Decoder).fastReadStringAsBytes,(*Decoder).readStringAsBytes,(*Decoder).ResetReader,(*Decoder).ResetBytes,(*Decoder).ResetBuffer,(*Decoder).ReadCount prop=C05
 //@ rule encapsulated Decoder.buf funcs=NewDecoder,NewDecoderFromReader,(*Decoder).loadMore,(*Decoder).NextByte,(*Decoder).Skip,(*Decoder).next,(*Decoder).Remains,(*Decoder).until,(*Decoder).readUint64,(*Decoder).fastReadStringAsBytes,(*Decoder).readStringAsBytes,(*Decoder).ResetReader,(*Decoder).ResetBytes,(*Decoder).ResetBuffer,(*Decoder).ReadCount prop=C05
 //@ rule encapsulated Decoder.reader funcs=NewDecoder,NewDecoderFromReader,(*Decoder).loadMore,(*Decoder).NextByte,(*Decoder).Skip,(*Decoder).next,(*Decoder).Remains,(*Decoder).until,(*Decoder).readUint64,(*Decoder).fastReadStringAsBytes,(*Decoder).readStringAsBytes,(*Decoder).ResetReader,(*Decoder).ResetBytes,(*Decoder).ResetBuffer,(*Decoder).ReadCount prop=C05
+
+// ---- reference numbering (C02): the encoder reserves exactly the numbers the decoder will use ----
+// a [][]byte: one number per NON-nil element (a nil element goes out as the null tag, which the
+// decoder does not number)
+//@ func appendBytes
+//@   nopanic
+//@   ensures len(result) > len(buf)
+//@ func (*Encoder).AddReferenceCount
+//@   prop C02 C14
+//@   nopanic
+//@   requires enc != nil && n >= 0
+//@   modifies enc.refer.last
+//@   ensures [numbers_only_in_reference_mode] enc.refer.last == old(enc.refer.last) + ite(enc.simple, 0, n)
+
+//@ func (*Encoder).writeBytesSliceBody
+//@   prop C02 C14
+//@   nopanic
+//@   requires enc != nil && 0 <= n && n <= len(slice)
+//@   modifies enc.refer.last, enc.buf
+//@   ensures [one_number_per_non_nil_element] !enc.simple ==> enc.refer.last == old(enc.refer.last) + nn_count(elems(slice), off(slice), n)
+//@   ensures [simple_mode_numbers_nothing] enc.simple ==> enc.refer.last == old(enc.refer.last)
